@@ -19,6 +19,7 @@ import itertools
 import re
 
 from .. import core, obs, seeds
+from ..ref import calref
 
 ID = "C18"
 US = 1_000_000
@@ -226,6 +227,23 @@ def check_date_time(acc, pendulum, loc):
                     acc.mismatch("Time.diff_for_humans", f"{loc}/phrase", case, r, sorted(ok))
 
 
+def ref_comps(ia, ib):
+    """Reference decomposition of the span between two instants, both expressed in UTC (the documented reading
+    for endpoints in differently named zones): whole months by floor (month shift with clamp), then the rest."""
+    lo, hi = (ia, ib) if ia <= ib else (ib, ia)
+    fa, fb = seeds.fields_of_wall(lo), seeds.fields_of_wall(hi)
+    mt = (fb[0] - fa[0]) * 12 + (fb[1] - fa[1])
+
+    def shifted(k):
+        y, m, d = calref.add_months(fa[0], fa[1], fa[2], k)
+        return obs.wall_us((y, m, d) + tuple(fa[3:]))
+    if shifted(mt) > hi:
+        mt -= 1
+    rest = hi - shifted(mt)
+    days, rest = divmod(rest, 86400 * US)
+    return [mt // 12, mt % 12, days // 7, days % 7, rest // (3600 * US), rest // (60 * US) % 60, rest // US % 60]
+
+
 def interval_comps(iv):
     return [iv.years, iv.months, iv.weeks, iv.remaining_days, iv.hours, iv.minutes, iv.remaining_seconds]
 
@@ -235,7 +253,7 @@ def check_pair(acc, pendulum, loc, ia, ib, use_global):
     d = data(loc)
     a = obs.utc_dt(pendulum, ia).in_timezone("Europe/Paris")
     b = obs.utc_dt(pendulum, ib)
-    comps = interval_comps(pendulum.Interval(a, b, absolute=True))
+    comps = ref_comps(ia, ib)   # independent of pendulum's own decomposition (a is in Paris, b in UTC)
     future = ia > ib           # the instance is later than the reference
     for absolute in (False, True):
         case = {"kind": "pair", "loc": loc, "ia": ia, "ib": ib, "abs": absolute, "global": use_global}
@@ -394,6 +412,11 @@ def points():
                   350 * 86400 * US, 365 * 86400 * US, 366 * 86400 * US, 580 * 86400 * US, 3653 * 86400 * US,
                   36525 * 86400 * US]
         POINTS = sorted({base + x for x in deltas} | {base - x for x in deltas[1::2]})
+        # local first hours of the 1st of a month east of UTC (the UTC date is still in the previous month)
+        for y, m, d in ((2023, 1, 31), (2024, 2, 29), (2023, 4, 30)):
+            t0 = (calref.days_from_civil(y, m, d) * 86400 + 23 * 3600 + 1800) * US
+            POINTS += [t0, t0 + 1800 * US, t0 + 2 * 3600 * US]
+        POINTS = sorted(set(POINTS))
     return POINTS
 
 
@@ -491,7 +514,7 @@ def evidence(m, tier, seed):
                 "0..23; minute, second 0..59} x {now, other} x {past, future} x {absolute}; in_words for every subset of 8 "
                 "Duration components x sign x 27 locales; 20 locale tokens x 12 months x 7 weekdays x am/pm x 27 locales; "
                 "call-order histories (all orderings of 2 and 3 of 5 calls) per locale on a cold cache; all ordered pairs "
-                "of a 47-point instant set through diff_for_humans (other / now injected / absolute, explicit and global "
+                "of a 56-point instant set through diff_for_humans (other / now injected / absolute, explicit and global "
                 "locale) for 6+3 locales (thorough: all); non-trivial = distinct (locale, unit, CLDR plural class) combinations reached + locale batches",
         "exhaustive": True,
     }, "assumptions": ["expected phrases are built from the locale's own data files (pendulum.locales.<loc>.locale)",
